@@ -244,7 +244,7 @@ pub enum Verdict {
 }
 
 pub fn compile(rl: &Rlibs, tag: &str, text: &str) -> Verdict {
-    let dir = PathBuf::from(format!("{VERIF}/work/c05"));
+    let dir = PathBuf::from(format!("{}/work/c05", verif_root()));
     let _ = std::fs::create_dir_all(&dir);
     let src = dir.join(format!("{tag}.rs"));
     let outp = dir.join(format!("{tag}.rmeta"));
